@@ -6,6 +6,8 @@ def build(tier):
     obs = steps.step_obligations("C09.a", kinds, tier, 1, 3 if quick else 4, symargs=True,
                                  arities={"cpp_class": [1, 3], "cpp_end_class": [0], "cpp_attr": [2, 3], "cpp_member": [2, 3, 5],
                                           "cpp_constructor": [2, 4], "function": [1, 2, 3, 5], "macro": [3], "@other": [1]})
+    obs += steps.step_obligations('C09.a', ['cpp_class', 'cpp_end_class', 'cpp_attr', 'cpp_member', 'cpp_constructor', 'function'], tier, 1, 1, symargs=True,
+                                  deepc=12 if quick else 30, deepd=2, preargs=['t%d' % i for i in range(8 if quick else 30)])
     shapes = [dict(bases=0, ctors=[], methods=[], attrs=[], inner=0),
               dict(bases=2, ctors=[], methods=[(0, 0, False)], attrs=[False], inner=0),
               dict(bases=1, ctors=[(1, 1, False)], methods=[(2, 2, False), (1, 2, True)], attrs=[True, False], inner=2),
